@@ -36,7 +36,7 @@ def run(ctx):
     ctx.harness("vh-text", ["chunks", "--cases", vec, "--out", trace])
     res = textlib.trace_sharded(ctx, SPEC, CFG, trace, shard_lines=60000, parallel=4)
     if not ctx.quick:
-        textlib.binding_self_test(ctx, SPEC, CFG, trace, drop_last_chunk, {"pred": "coverage"}, max_lines=30000)
+        textlib.binding_self_test(ctx, SPEC, CFG, trace, drop_last_chunk, {"pred": "coverage"})
     finish(ctx, trace, res, n, True)
 
 
